@@ -1766,7 +1766,9 @@ func (m *Model) touched(real string) {
 
 // Local performs a harness-side action on the served tree (session steps whose Op starts with "LOCAL_"):
 //
-//	LOCAL_SWAP  Path <-> Raw: the two files exchange their names by renames (an image replaced under its name)
+//	LOCAL_SWAP    Path <-> Raw: the two objects exchange their names by renames (an image replaced under its name, a
+//	              directory replaced by another directory or by a file)
+//	LOCAL_REMOVE  Path is removed with everything below it
 //
 // Whatever the connection holds open on the affected paths becomes unpredictable until it is opened again.
 func (m *Model) Local(r Req) error {
@@ -1787,6 +1789,16 @@ func (m *Model) Local(r Req) error {
 		}
 		m.touched(a)
 		m.touched(b)
+		return nil
+	case "LOCAL_REMOVE":
+		a, _, _ := m.Resolve(string(r.Path))
+		if a == "" || a == m.Root {
+			return fmt.Errorf("LOCAL_REMOVE of the root")
+		}
+		if err := os.RemoveAll(a); err != nil {
+			return err
+		}
+		m.touched(a)
 		return nil
 	}
 	return fmt.Errorf("unknown local action %q", r.Op)
